@@ -1,1 +1,2 @@
+pub mod registry;
 pub mod wire;
